@@ -1,4 +1,5 @@
 import random
+from decimal import Decimal
 from typing import Any, Optional, cast
 
 from flamapy.core.models import VariabilityModel
@@ -89,12 +90,16 @@ def get_random_value_from_ranges(ranges: list[Range]) -> Any:
     """
     random_range = random.choice(ranges)
     if isinstance(random_range.min_value, float) or isinstance(random_range.max_value, float):
-        min_digits = str(random_range.min_value)[::-1].find('.')
-        max_digits = str(random_range.max_value)[::-1].find('.')
-        digits = max(min_digits, max_digits)
+        digits = max(decimal_places(random_range.min_value),
+                     decimal_places(random_range.max_value))
         value = round(random.uniform(random_range.min_value, random_range.max_value), digits)
     elif isinstance(random_range.min_value, int) and isinstance(random_range.max_value, int):
         value = random.randint(random_range.min_value, random_range.max_value)
     else:
         raise FlamaException(f"Invalid range for attribute: {ranges}")
     return value
+
+
+def decimal_places(number: float) -> int:
+    """Decimals needed to write the number exactly (1e-05 has five, 2.5 one, 3 and 1e+16 none)."""
+    return max(0, -int(Decimal(repr(number)).as_tuple().exponent))
